@@ -238,6 +238,80 @@ def run_binary(args):
     return {'rc': rc, 'stderr_names_file': 'lib.rs' in err, 'panicked': 'panicked at' in err, 'output': text, 'stderr_tail': err[-300:]}
 
 
+
+# ---------------------------------------------------------------- several source files merged into one output unit
+DEF_TS = __import__('re').compile(r'^export (?:interface|type|enum|const) ([A-Za-z_][A-Za-z0-9_]*)', __import__('re').M)
+
+
+def run_unit(args):
+    """files: {relative path: text} of ONE crate; runs the real binary (TypeScript) in single-file and in folder mode"""
+    files, = args
+    d = vf.tmpdir()
+    for rel, txt in files.items():
+        q = d / 'ws' / 'unit' / 'src' / rel
+        q.parent.mkdir(parents=True, exist_ok=True)
+        q.write_text(txt)
+    (d / 'multi').mkdir()
+    out = {}
+    for mode, dest, f in (('single', ['-o', str(d / 'single.ts')], d / 'single.ts'), ('multi', ['--output-folder', str(d / 'multi')], d / 'multi' / 'unit.ts')):
+        try:
+            p = subprocess.run(['timeout', '20', str(vf.TYPESHARE), '--lang', 'typescript'] + dest + [str(d / 'ws')], capture_output=True, text=True, timeout=30)
+            rc, err = p.returncode, p.stderr
+        except subprocess.TimeoutExpired:
+            rc, err = 124, ''
+        out[mode] = {'rc': rc, 'names': sorted(DEF_TS.findall(f.read_text())) if f.exists() else None, 'stderr_tail': err[-300:]}
+    return out
+
+
+def phase_units(chk, good_sources, rng, n):
+    """The collector merges the per-file results of one output unit (`+=`): every annotated item of every file must arrive in the
+    output, whatever the files contain and in whatever order they reach the collector - files holding ONLY constants, files whose
+    only annotated item fails to parse (then the run must fail) next to ordinary ones (seeded C03_e: an accumulator that so far
+    holds only constants or errors was taken for empty and replaced by the next file).  Expected names = the union of what each
+    file yields when it is the only file (the single-file facet is judged by parts (a)-(c))."""
+    if not good_sources:
+        return
+    units = []
+    for k in range(n):
+        files = {}
+        nconst = rng.choice([1, 2, 2, 3])
+        for j in range(nconst):
+            files[f'consts{j}.rs'] = ''.join(f'#[typeshare]\npub const K{k}_{j}_{i}: u32 = {i};\n' for i in range(rng.randint(1, 2)))
+        for j in range(rng.choice([0, 1, 1, 2])):
+            files[f'types{j}.rs'] = rng.choice(good_sources)
+        bad = rng.random() < 0.25
+        if bad:
+            files['broken.rs'] = '#[typeshare]\npub struct Broken { pub a: u64 }\n'
+        units.append((files, bad))
+    singles = {}
+    uniq = sorted({t for files, _ in units for t in files.values()})
+    with concurrent.futures.ThreadPoolExecutor(max_workers=vf.NPROC) as ex:
+        for t, o in zip(uniq, ex.map(run_unit, [({'only.rs': t},) for t in uniq])):
+            singles[t] = o
+        outs = list(ex.map(run_unit, [(files,) for files, _ in units]))
+    for k, ((files, bad), o) in enumerate(zip(units, outs)):
+        chk.evaluations += 1
+        chk.count('merged_units')
+        want = sorted(n_ for rel, t in files.items() if rel != 'broken.rs' for n_ in (singles[t]['single']['names'] or []))
+        for mode in ('single', 'multi'):
+            r = o[mode]
+            payload = {'part': 'units', 'mode': mode, 'files': files, 'expected_names': want, 'observed': r}
+            if bad:
+                if r['rc'] == 0:
+                    chk.violation(f'unit-{k}-{mode}', payload, f'{mode}-file mode: broken.rs holds an annotated item that cannot be generated, yet the run exits 0: the item is silently omitted')
+                    break
+                continue
+            if r['rc'] != 0 or r['names'] is None:
+                chk.violation(f'unit-{k}-{mode}', payload, f'{mode}-file mode: the real binary fails (rc {r["rc"]}) on a unit of supported files')
+                break
+            if r['names'] != want:
+                missing = [x for x in want if x not in r['names']]
+                chk.violation(f'unit-{k}-{mode}', payload, f'{mode}-file mode: the merged unit defines {len(r["names"])} names where its files define {len(want)} one by one; missing: {missing[:6]}')
+                break
+        else:
+            chk.nontrivial.add(('unit', json.dumps(files, sort_keys=True)))
+
+
 # ---------------------------------------------------------------- the check
 def run(chk):
     chk.rule = ('first the fixed witnesses / corner cases (both finding classes, --target-os lists over cfg-guarded items and members, depth-5 nesting, impl / trait '
@@ -516,6 +590,10 @@ def run(chk):
                         chk.violation(f'cli-{i}', payload, 'the file written by the real binary does not define exactly the annotated items')
                 else:
                     chk.count('cli_output_ok')
+    # ---------- (d) several files merged into one output unit, through the real binary
+    if chk.cli_ok:
+        goods = [srcs[k] for k in without if k not in set(twins)][:80]
+        phase_units(chk, goods, chk.rng, 40 if quick else 500)
     chk.count('correspondence_mismatches', len(corr))
     if corr and not [v for v in chk.violations if not v[2]]:
         chk.violation('correspondence', {'correspondence': 'Model.Parse.parse_file / <L>_file_decls (c03_front, c03_model) vs parser::parse / generate_types', 'cases': corr[:6]},
